@@ -137,7 +137,11 @@ func toToolsNode(node *ToolsNode, opts ...GraphAddNodeOpt) (*graphNode, *graphAd
 func toLambdaNode(node *Lambda, opts ...GraphAddNodeOpt) (*graphNode, *graphAddNodeOpts) {
 	info, options := getNodeInfo(opts...)
 
-	gn := toNode(info, node.executor, nil, node.executor.meta, node, opts...)
+	// every node owns its runnable: compiling writes the node's meta and nodeInfo (run info of
+	// the callbacks) into it, and the same Lambda may be added under several node keys.
+	executor := *node.executor
+
+	gn := toNode(info, &executor, nil, node.executor.meta, node, opts...)
 
 	return gn, options
 }
